@@ -152,7 +152,7 @@ class Roles:
         """the callee of the day loop from which a writer of lot.cost_offset is reachable (through helpers)"""
         if self.dayloop is None:
             return None
-        writers = {w[0].id for w in self.field_writes(LOT, "cost_offset") if w[2] != "construct"}
+        writers = {w[0].parent or w[0].id for w in self.field_writes(LOT, "cost_offset") if w[2] != "construct"}
         out = []
         for i, t in self.dayloop.calls():
             cb = self.F.bodies.get(t["callee"])
